@@ -117,7 +117,7 @@ def _cli_job(job):
 def run(tier="quick", seed=0):
     pr = PropertyRun("C14", tier, seed)
     thorough = tier == "thorough"
-    r = pr.model_check("MCNuSpaceSim", "MCNuSpaceSim.cfg", workers=16, deadlock=False, heap="6g", timeout=1200)
+    r = pr.model_check("MCNuSpaceSim", "MCNuSpaceSimFresh.cfg", workers=16, deadlock=False, heap="6g", timeout=1200)
     pr.model_check("MCRunMatrix", "MCRunMatrix.cfg", workers=8)
     leaky = tlc.run("MCRunMatrix", "MCRunMatrixLeaky.cfg", workers=4)
     if leaky.ok or "InvIRad" not in leaky.invariant_violated:
